@@ -459,11 +459,9 @@ class HRealised(Realised):
         name = f"H{self.uid}_{ci}"
         kind = c["kind"]
         if kind == "td":
-            ann = {}
-            for f in c["fields"]:
-                t = self.ty(f["ty"]) if f["ty"] is not None else Any
-                ann[f["name"]] = t if f.get("required", True) else NotRequired[t]
-            return TypedDict(name, ann)
+            from .realise import make_typeddict
+            fs = [(f["name"], self.ty(f["ty"]) if f["ty"] is not None else Any, f.get("required", True)) for f in c["fields"]]
+            return make_typeddict(name, fs, (self.uid + ci) % 3)
         if kind == "nt":
             ann = [(f["name"], self.ty(f["ty"]) if f["ty"] is not None else Any) for f in c["fields"]]
             cl = NamedTuple(name, ann)
@@ -472,6 +470,7 @@ class HRealised(Realised):
                 cl.__new__.__defaults__ = tuple(defaults)
                 cl._field_defaults = {f["name"]: self.val(f["dflt"][1]) for f in c["fields"] if f["dflt"] is not None}
             return cl
+        stringly = (self.uid + ci) % 4 == 0
         if kind == "attrs":
             flds = {}
             for f in c["fields"]:
@@ -485,6 +484,8 @@ class HRealised(Realised):
                     kw["kw_only"] = True
                 if f["ty"] is not None:
                     kw["type"] = self.ty(f["ty"])
+                    if stringly and isinstance(f["ty"], str) and f["ty"] in ("int", "str", "float", "bytes", "bool"):
+                        kw["type"] = f["ty"]  # PEP 563 style: still a string when the first hook is generated
                 if f["alias"] != f["name"].lstrip("_"):
                     kw["alias"] = f["alias"]
                 flds[f["name"]] = attrs.field(**kw)
@@ -501,6 +502,8 @@ class HRealised(Realised):
                 if f.get("kw_only"):
                     kw["kw_only"] = True
                 t = self.ty(f["ty"]) if f["ty"] is not None else Any
+                if stringly and isinstance(f["ty"], str) and f["ty"] in ("int", "str", "float", "bytes", "bool"):
+                    t = f["ty"]
                 flds.append((f["name"], t, dataclasses.field(**kw)))
             return dataclasses.make_dataclass(name, flds, frozen=c["frozen"])
         raise ValueError(kind)
